@@ -51,6 +51,8 @@ func init() {
 			}
 		},
 	})
+
+	Registry["C12"].ColdStart = func(c *mon.Ctx) { c12RunConc(c, c.Seed*7919+uint64(c.Shard)+1) }
 }
 
 func c12Generate(c *mon.Ctx) {
@@ -205,6 +207,9 @@ func c12Generate(c *mon.Ctx) {
 
 		return &c12Case{Op: ops[r.Intn(len(ops))], A: hx(a.X), B: hx(b.X), Alias: aliases[r.Intn(len(aliases))], Class: a.Class}
 	})
+
+	// and again at the end of the shard, when the process has a history behind it
+	concBatches(c, c.N(4, 200), func(seed uint64) any { return &c12Case{Conc: seed + 50000} })
 }
 
 func c12RunMove(c *mon.Ctx, cs *c12Case) {
